@@ -922,6 +922,24 @@ theorem case_valid_text (cs : List Char) (h : NoNul cs) :
 
 example : toUpperCase (Std.utf8 ['a', 'é']) = some (Std.utf8 ['A', 'É']) := by decide +kernel
 
+/-- corollary: on valid text `count()`, `chars().length()` and the number of iteration steps are the same before and
+    after `toUpperCase()` / `toLowerCase()` -/
+theorem case_preserves_count (cs : List Char) (h : NoNul cs) :
+    ∃ up lo, toUpperCase (Std.utf8 cs) = some up ∧ toLowerCase (Std.utf8 cs) = some lo ∧
+      count up = some cs.length ∧ count lo = some cs.length ∧
+      (chars up).map List.length = some cs.length ∧ (chars lo).map List.length = some cs.length ∧
+      (iter up).map List.length = some cs.length ∧ (iter lo).map List.length = some cs.length := by
+  obtain ⟨⟨u, hu, lu, eu⟩, ⟨l, hl, ll, el⟩⟩ := case_valid_text cs h
+  obtain ⟨a1, a2, a3⟩ := count_chars_iter_agree u hu
+  obtain ⟨b1, b2, b3⟩ := count_chars_iter_agree l hl
+  refine ⟨_, _, eu, el, by rw [a1, lu], by rw [b1, ll], ?_, ?_, ?_, ?_⟩
+  · rw [a2]; simp [Std.codes, lu]
+  · rw [b2]; simp [Std.codes, ll]
+  · rw [a3]; simp [lu]
+  · rw [b3]; simp [ll]
+
+example : (toLowerCase (Std.utf8 ['A', 'É', '€'])).bind count = some 3 := by decide +kernel
+
 /-! ## extension round: U+0000, `wlength()`, `equalsNocase` as an equivalence -/
 
 theorem countFrom_std_junk (cs : List Char) (h : NoNul cs) (junk : List UInt8) :
